@@ -2,6 +2,7 @@ package sim
 
 import (
 	"bytes"
+	"context"
 	"fmt"
 	"regexp"
 	"sort"
@@ -74,7 +75,7 @@ var permWallets = []WalletSpec{
 var walletPatterns = []string{"Wallet1", "Wallet2", ".*", "Wallet.*", "Wallet[12]", "Wallet1|Wallet2", "Wallet2|Wallet1", "^Wallet1$", "wallet1", "WALLET2", "Wallet(1|2)", "Wallet1.?", "x?Wallet2", "Wallet10", "[a-z]+3", "Wallet1|xWallet2|wallet3", "Empty", "E.*|Wallet1",
 	// escape classes in both polarities, Unicode classes, POSIX classes, the pattern's own text anchors
 	`Wallet\D`, `Wallet\d`, `Wallet\d+`, `\w+2`, `Wallet\S`, `\D+`, `\W?Wallet1`, `[[:alpha:]]+1`, `Wallet\x31`, `Wallet\pN`, `Wallet\PN`, `\AWallet2\z`, `Wallet1\b`, `Wallet\B1`}
-var accountPatterns = []string{"", "acc1", "acc.*", "acc1|Acc2", "Acc2|acc1", "val-.*", "ACC1", ".*1", "^acc1$", "acc1.?", "(x)?acc1", "acc(1|10)",
+var accountPatterns = []string{"", "acc1", "acc.*", "acc1|Acc2", "Acc2|acc1", "val-.*", "ACC1", ".*1", "^acc1$", "acc1.?", "(x)?acc1", "acc(1|10)", "made1", "made[0-9]+", "made1|made2|made3", "made.*",
 	`acc\D`, `acc\d`, `acc\d{2}`, `val\W1`, `val\w1`, `\S+`, `\Aacc1\z`, `[[:^digit:]]+\d`, `acc\PL`}
 
 func drawTable(rc *RunCtx) (refTable, []string) {
@@ -233,8 +234,31 @@ func runPerm(t *testing.T, rc *RunCtx) {
 		case "Create account":
 			w.created++
 			account = fmt.Sprintf("made%d", w.created)
-			res, err := inst.AcctH.Generate(ctx, &pb.GenerateRequest{Account: wallet + "/" + account, Passphrase: []byte("pass"), Participants: 1, SigningThreshold: 1})
+			// Sometimes the requested name carries white space around it: whatever name the account ends up with
+			// is the one the decision has to hold for.
+			reqAccount := account
+			switch ch.Pick(8, 0) {
+			case 5:
+				reqAccount = " " + account
+			case 6:
+				reqAccount = account + " "
+			case 7:
+				reqAccount = "\t" + account + "\n"
+			}
+			res, err := inst.AcctH.Generate(ctx, &pb.GenerateRequest{Account: wallet + "/" + reqAccount, Passphrase: []byte("pass"), Participants: 1, SigningThreshold: 1})
 			served = err == nil && res.GetState() == pb.ResponseState_SUCCEEDED
+			if served {
+				account = reqAccount
+				if _, _, ferr := inst.FetcherW.Service.FetchAccount(context.Background(), wallet+"/"+reqAccount); ferr != nil {
+					// not stored under the requested name: look for the name it was given
+					for _, cand := range []string{strings.TrimSpace(reqAccount), strings.ToLower(reqAccount)} {
+						if _, _, e2 := inst.FetcherW.Service.FetchAccount(context.Background(), wallet+"/"+cand); e2 == nil {
+							account = cand
+							rc.Stats.Inc("created_under_another_name_than_requested", 1)
+						}
+					}
+				}
+			}
 		case "Lock wallet":
 			account = ""
 			// The wallet is resolved from the part before the first '/': whatever follows must not matter.
